@@ -376,6 +376,20 @@ async fn acquire_authority_lock_with_recovery(
     }
 }
 
+/// Verification-only entry to the recovery loop above (compiled only with `--cfg rip_verif`), with the
+/// same client `serve` builds.
+#[cfg(all(rip_verif, not(test)))]
+pub(crate) async fn verif_acquire_authority_lock_with_recovery(
+    data_dir: &std::path::Path,
+    workspace_root: &std::path::Path,
+) -> Result<AuthorityLockGuard, String> {
+    let client = Client::builder()
+        .timeout(std::time::Duration::from_millis(250))
+        .build()
+        .map_err(|err| err.to_string())?;
+    acquire_authority_lock_with_recovery(&client, data_dir, workspace_root).await
+}
+
 #[cfg(not(test))]
 #[allow(dead_code)]
 pub(crate) fn build_app(data_dir: std::path::PathBuf) -> Router {
